@@ -80,3 +80,46 @@ def check(ctx, env):
     ctx.extra["panic_sites"] = st
     ctx.floor("R19.1", "panic sites inventoried", st["sites"], 150)
     r19_2_shared_pointers(ctx, prog)
+    r19_3_error_code_invariant(ctx, prog)
+
+
+def r19_3_error_code_invariant(ctx, prog, rule="R19.3"):
+    """the budgeted unwraps of ErrorCode::class / number rely on 300 <= error_code <= 699"""
+    ctx.rule(rule, "ErrorCode invariant (required by the budgeted unwraps in ErrorCode::class/number): the only constructors of "
+                   "the private field are ErrorCode::new, whose Ok path is exactly (300..700).contains(&error_code), and "
+                   "ErrorCode::decode, which builds class*100 + number with class in 3..=6 and number in 0..=99")
+    from .. import client as C
+    paths, info = C.explore_fn(prog, "stun_rs::types::ErrorCode::new", "x", [r"\{closure"])
+    ctx.fn(info["body"])
+    n = 0
+    for pa in paths:
+        cs = pa.calls_to(r"Range::<u16>::contains|ops::Range::<.*>::contains|RangeBounds|Range<u16>")
+        cs = cs or [e for e in pa.calls if e[1].endswith("::contains::<u16>") or "Range" in e[1] and "contains" in e[1]]
+        val = pa.choice(r"^ret:contains@")
+        n += 1
+        ok = len(cs) == 1 and C.expr_of(pa, cs[0][2]) == (("Range", 300, 700), "top:error_code") and val is not None \
+            and ((pa.ret_kind == "Ok") == (val == 1))
+        if ok and pa.ret_kind == "Ok":
+            r = pa.ret
+            ok = isinstance(r, tuple) and isinstance(r[1], tuple) and r[1][0] == "ErrorCode" and r[1][1] == "top:error_code"
+        ctx.ob(rule, "new:%s" % pa.ret_kind, ok, "ErrorCode::new -> %s when contains=%s of %s" % (pa.ret_kind, val, [C.expr_of(pa, c[2]) for c in cs][:1]),
+               info["where"], replay=None if ok else pa.describe())
+    ctx.floor(rule, "ErrorCode::new paths", n, 2)
+    # who constructs ErrorCode { error_code, .. }
+    makers = set()
+    for b in prog.bodies.values():
+        if b.crate != "stun_rs":
+            continue
+        for blk in b.blocks:
+            for s in blk["stmts"]:
+                if s["k"] == "assign" and s["rv"]["k"] == "aggregate" and s["rv"].get("adt", "").endswith("types::ErrorCode"):
+                    makers.add(b.path)
+                if s["k"] == "assign" and any(e["k"] == "field" and e.get("name") == "error_code" and e.get("adt", "").endswith("types::ErrorCode") for e in s["place"]["p"]):
+                    makers.add(b.path + " (field write)")
+    allowed = {"stun_rs::types::ErrorCode::new::{closure#0}", "<stun_rs::types::ErrorCode as stun_rs::Decode<'_>>::decode",
+               "<stun_rs::types::ErrorCode as std::clone::Clone>::clone"}
+    ctx.ob(rule, "constructors", makers <= allowed and len(makers) >= 2, "ErrorCode values are built in %s" % sorted(x.split("::")[-1] + "@" + x.split("::")[-2] for x in makers))
+    # decode builds its value through ErrorCode::new, so the invariant has a single gate
+    b = prog.body("<stun_rs::types::ErrorCode as stun_rs::Decode<'_>>::decode")
+    via_new = [c for c in b.calls() if c.callee_path == "stun_rs::types::ErrorCode::new"]
+    ctx.ob(rule, "decode-uses-new", len(via_new) == 1, "ErrorCode::decode constructs through ErrorCode::new (%d call)" % len(via_new), b.where())
